@@ -47,7 +47,7 @@ def required_guards(tier):
     return ['height>=3', 'single_child_interior', 'roundtrips', 'usable_ops', 'byte_compared',
             'cross_loaded', 'embedded_form', 'empty_form', 'db_commits', 'db_records_compared',
             'db_cross_reads', 'db_cross_writes', 'subclass_cases', 'subclass_pickles_compared',
-            'deep_pickles_compared']
+            'deep_pickles_compared', 'subclass_tree_roundtrips', 'subclass_tree_multibucket']
 
 
 def configs(tier):
@@ -100,6 +100,7 @@ def jobs(tier):
                 js.append({'fn': 'db_job', 'weight': 10, 'group': 'db/%s' % kind,
                            'args': dict(fam=fam, kind=kind, sizes=(3, 2), n=4 if tier == 'quick' else 5)})
         js.append({'fn': 'subclass_job', 'weight': 1, 'group': 'subclass', 'args': dict(fam=fam)})
+        js.append({'fn': 'subtree_job', 'weight': 1, 'group': 'subclass-tree', 'args': dict(fam=fam)})
     for fam in (('II', 'OO') if tier == 'quick' else F.COVER):
         for kind in F.TREE_KINDS:
             for sz, n, order in ([((2, 3), 11, 'asc'), ((3, 2), 10, 'desc')] if tier == 'quick' else
@@ -559,6 +560,96 @@ def subclass_job(fam):
                 guards=dict(guards), outcomes={}, violations=rep.all(), sample=sample)
 
 
+# --------------------------------------------------------------------------
+# application subclasses with their own bucket type (BTree._bucket_type): the state of such a tree
+# holds instances of the bucket subclass and must round-trip like any other
+
+_SUBCLASSES = {}
+
+
+def _subclasses(fam, kind, impl):
+    """Module-level (picklable by reference) subclasses of a family's tree and leaf classes."""
+    key = (fam, kind, impl)
+    if key not in _SUBCLASSES:
+        tree_cls = F.cls(fam, kind, impl)
+        leaf_cls = F.cls(fam, F.leaf_kind_of(kind), impl)
+        lname = 'Sub%s%s%s' % (fam, F.leaf_kind_of(kind), impl)
+        tname = 'Sub%s%s%s' % (fam, kind, impl)
+        leaf = type(lname, (leaf_cls,), {'__module__': __name__})
+        tree = type(tname, (tree_cls,), {'__module__': __name__, '_bucket_type': leaf,
+                                         'max_leaf_size': 2, 'max_internal_size': 3})   # 2/2 would produce the shapes of finding F12
+        globals()[lname] = leaf
+        globals()[tname] = tree
+        _SUBCLASSES[key] = (tree, leaf)
+    return _SUBCLASSES[key]
+
+
+def subtree_job(fam):
+    import collections
+    from ..report import Reporter
+    rep = Reporter('C06')
+    guards = collections.Counter()
+    evaluations = 0
+    sample = None
+    keys, grid = F.universe(fam, 9, 'centred')
+    vals = F.values(fam)
+    for kind in F.TREE_KINDS:
+        for impl in F.IMPLS:
+            tree_cls, leaf_cls = _subclasses(fam, kind, impl)
+            ismap = F.is_map(kind)
+            for nkeys in range(0, len(keys) + 1):
+                t = tree_cls()
+                for i, k in enumerate(keys[:nkeys]):
+                    if ismap:
+                        t[k] = vals[i % 2]
+                    else:
+                        t.add(k)
+                want = list(t.items()) if ismap else list(t.keys())
+                fb = getattr(t, '_firstbucket', None)
+                if fb is not None and type(fb) is not leaf_cls:
+                    raise RuntimeError('harness: the subclass does not use its bucket type')
+                trips = [('setstate', lambda: _restate(tree_cls, t)), ('copy', lambda: copy.copy(t)),
+                         ('deepcopy', lambda: copy.deepcopy(t))]
+                trips += [('pickle-%d' % p_, (lambda p_=p_: pickle.loads(pickle.dumps(t, p_)))) for p_ in PROTOS]
+                for tname, fn in trips:
+                    evaluations += 1
+                    guards['subclass_tree_roundtrips'] += 1
+                    sig = dict(subtree=True, fam=fam, kind=kind, impl=impl, site=tname)
+                    case = dict(subtree=True, fam=fam, kind=kind, impl=impl, nkeys=nkeys, trip=tname)
+                    if sample is None and nkeys >= 3:
+                        sample = case
+                    try:
+                        c2 = fn()
+                        got = list(c2.items()) if ismap else list(c2.keys())
+                        if got != want:
+                            rep.add(dict(sig, cls='contents'), case, '%r, expected %r' % (got, want))
+                            continue
+                        if type(c2) is not tree_cls:
+                            rep.add(dict(sig, cls='wrong-class'), case, 'got a %s' % type(c2).__name__)
+                            continue
+                        fb2 = c2._firstbucket
+                        if fb2 is not None and type(fb2) is not leaf_cls:
+                            rep.add(dict(sig, cls='wrong-leaf-class'), case,
+                                    'leaves of the copy are %s' % type(fb2).__name__)
+                            continue
+                        c2._check()
+                        if nkeys >= 3:
+                            guards['subclass_tree_multibucket'] += 1
+                    except Exception as e:      # noqa
+                        rep.add(dict(sig, cls='exc-' + type(e).__name__), case,
+                                '%s of a %s with %d keys (its own bucket subclass): %r'
+                                % (tname, tree_cls.__name__, nkeys, e))
+    return dict(states=evaluations, transitions=evaluations, compared=evaluations, evaluations=evaluations,
+                distinct=evaluations, exhaustive=not rep.full, guards=dict(guards), outcomes={},
+                violations=rep.all(), sample=sample)
+
+
+def _restate(cls, t):
+    n = cls()
+    n.__setstate__(t.__getstate__())
+    return n
+
+
 def deep_job(fam, kind, sizes, n, order):
     """Byte identity of C and Python pickles (and equal state shape) along a scripted growth of n
     keys and over its complete thinning space at asymmetric node sizes - the lock-step walk of
@@ -586,6 +677,11 @@ def replay(case):
     if case.get('deep06'):
         r = deep_job(case['fam'], case['kind'], tuple(case['sizes']), case['n'], case['order'])
         vs = [v for v in r['violations'] if v['case'].get('history') == case.get('history')]
+        return dict(violations=vs)
+    if case.get('subtree'):
+        r = subtree_job(case['fam'])
+        vs = [v for v in r['violations'] if all(v['case'].get(k) == case.get(k)
+                                                for k in ('kind', 'impl', 'nkeys', 'trip'))]
         return dict(violations=vs)
     if case.get('db'):
         r = db_job(case['fam'], case['kind'], case.get('sizes') and tuple(case['sizes']), case['n'])
